@@ -360,3 +360,32 @@ class VDDateParseLen(Base):
 
     def raises(self, c, a):
         return {'PyCdlibInvalidISO': True}
+
+
+@contract
+class VDDateNewYearOutOfRange(Base):
+    """C19/vd-date: an instant whose local year does not have four digits cannot be recorded in the 17-byte volume descriptor date
+    (the digits would push the offset byte out of the field): new(t) refuses it with InvalidInput.  Enumerated instants (the
+    calendar model of the verifier covers 1970-2155; these are handed to CPython's own localtime)."""
+    target = VDD + '.new'
+    t = 253402300800 + 86400 * 2
+    crosscheck = False
+    covers = ('raise:PyCdlibInvalidInput',)
+
+    def setup(self, c):
+        if c.symbolic:
+            c.p.ghost['tz_quarters'] = 0          # UTC: the instant is concrete, so its civil date is computed exactly
+        c.a.self = c.new(VDD)
+        return Call([float(self.t)], self_obj=c.a.self)
+
+    def replay_env(self, values):
+        return {'TZ': tz_string(0)}
+
+    def raises(self, c, a):
+        return {'PyCdlibInvalidInput': True}
+
+    def post(self, c, a, out):
+        return {'refused': False}
+
+    def observe(self, c, a, out):
+        return {'kind': out.kind, 'exc': out.exc}
